@@ -13,7 +13,7 @@ TECHNIQUE = ('Hypothesis key-request histories (model-based operation lists incl
 RULE = ('Per history: (seed | mnemonic | xprv) x network (11) x witness type; operations new_key(account, change, '
         'optional other witness type), new_key_change, get_key, get_keys(n), new_account, key_for_path, '
         'keys_for_path(number_of_keys=k), reopen; final restore in fresh databases from the seed, the mnemonic, the '
-        'master xprv (replaying the requests) and watch-only from the account xpub. Non-trivial = >=2 accounts, or '
+        'master xprv (replaying the requests) and watch-only from the account xpub. [wallets with a non-zero default account, set_default_account, read-only requests (public_master, wif, account, keys) between key requests] Non-trivial = >=2 accounts, or '
         'mixed witness types, or a bulk creation followed by reopen; every restore comparison counts; distinct by '
         'history.')
 ASSUMPTIONS = ['ref/bip32.py, ref/bip39.py, ref/address.py', 'SQLite only',
@@ -272,6 +272,17 @@ def _run_ops(ctx, case, w, uri, master, flags, reopen=True):
                                       (a.path, a.account_id, exp, want), case)
                 accounts.setdefault(wt, set()).add(a.account_id)
                 flags.add('multi_account')
+            elif name == 'observe':
+                # read-only requests: they must not change what the wallet hands out afterwards
+                if op['what'] == 'public_master':
+                    w.public_master()
+                elif op['what'] == 'wif_public':
+                    w.wif(is_private=False)
+                elif op['what'] == 'account_key':
+                    w.account(default[0])
+                else:
+                    w.keys(depth=5)
+                flags.add('observed.' + op['what'])
             elif name == 'set_default_account':
                 known = sorted(accounts.get(wt0, set()))
                 a = known[op['pick'] % len(known)]
@@ -358,6 +369,8 @@ def _strategy(ctx):
                                    'index': st.sampled_from([0, 3, 20]), 'count': st.integers(1, 3)}),
             st.just({'op': 'reopen'}),
             st.fixed_dictionaries({'op': st.just('set_default_account'), 'pick': st.integers(0, 3)}),
+            st.fixed_dictionaries({'op': st.just('observe'),
+                                   'what': st.sampled_from(['public_master', 'wif_public', 'account_key', 'keys'])}),
         )
         return {'kind': 'keys', 'network': net, 'witness_type': wt, 'source': source,
                 'account0': draw(st.sampled_from([0, 0, 0, 2, 1])),
